@@ -563,3 +563,8 @@ UNITS = [
                       "rows of at most 2*lanes+1 pixels (two main-loop iterations, every remainder length, the AVX2 -> SSE4.1 -> native hand-over)"],
          kani=dict(functions=_fns8, modules=_mods8, harnesses=_hs8)),
 ]
+
+# --- set by the lead: the row-driver harnesses unwind long loops; kani-driver keeps all CBMC messages of a harness in memory (6 - 11 GB
+# each at the end of the run, measured), so they run in their own small batches (fv/kani.py run_harnesses, `heavy`).
+for _h in _hs8:
+    _h["mem"] = "high"
